@@ -4,10 +4,12 @@
 package main
 
 import (
+	"encoding/json"
 	"flag"
 	"fmt"
 	"os"
 	"path/filepath"
+	"strings"
 
 	"golang.org/x/tools/go/packages"
 )
@@ -15,9 +17,66 @@ import (
 var repoDir = flag.String("repo", "/repo", "repository working tree")
 var outDir = flag.String("out", "/verif/lean/Cql/Gen", "output directory for generated Lean files")
 
+var skip = flag.String("skip", "", "comma-separated generators to skip (their files are kept)")
+var baselineDir = flag.String("baseline", "/verif/lean/GenBaseline", "generated files of the unchanged tree, used in place of a generator that fails")
+
+type genFailure struct{ msg string }
+
+var inGenerator bool
+
+// fatalf: inside a generator the failure is confined to that generator (see runGen); elsewhere it ends the run
 func fatalf(format string, args ...interface{}) {
-	fmt.Fprintf(os.Stderr, "verif-extract: "+format+"\n", args...)
+	msg := fmt.Sprintf(format, args...)
+	if inGenerator {
+		panic(genFailure{msg})
+	}
+	fmt.Fprintf(os.Stderr, "verif-extract: %s\n", msg)
 	os.Exit(2)
+}
+
+var failed = map[string]string{}
+
+// runGen runs one generator. When it rejects the source, the files it is responsible for are taken from the committed
+// baseline (so that the models of unrelated properties still build) and the failure is recorded in failed.json: the checks
+// of the properties that depend on this generator then report the tie as broken.
+func runGen(name string, files []string, f func()) {
+	for _, sk := range strings.Split(*skip, ",") {
+		if sk == name {
+			// not needed by this check: keep what is there, or the baseline (never stale data for the property that needs it:
+			// its own check does not skip it)
+			for _, fn := range files {
+				path := filepath.Join(*outDir, fn)
+				written[path] = true
+				if _, err := os.Stat(path); err != nil {
+					if b, err := os.ReadFile(filepath.Join(*baselineDir, fn)); err == nil {
+						writeFile(fn, string(b))
+					}
+				}
+			}
+			return
+		}
+	}
+	defer func() {
+		inGenerator = false
+		if r := recover(); r != nil {
+			gf, ok := r.(genFailure)
+			if !ok {
+				panic(r)
+			}
+			failed[name] = gf.msg
+			fmt.Fprintf(os.Stderr, "verif-extract: GEN-FAILED %s: %s\n", name, gf.msg)
+			for _, fn := range files {
+				b, err := os.ReadFile(filepath.Join(*baselineDir, fn))
+				if err != nil {
+					fmt.Fprintf(os.Stderr, "verif-extract: no baseline for %s: %v\n", fn, err)
+					os.Exit(2)
+				}
+				writeFile(fn, string(b))
+			}
+		}
+	}()
+	inGenerator = true
+	f()
 }
 
 func loadPkgs(patterns ...string) map[string]*packages.Package {
@@ -62,13 +121,14 @@ func main() {
 	}
 	pkgs := loadPkgs("./primitive", "./message", "./frame", "./datacodec", "./crc", "./segment", "./client",
 		"./datatype", "./compression/lz4", "./compression/snappy")
-	genConstants(pkgs["primitive"])
-	genAccessors(pkgs["message"], pkgs["frame"])
-	genConversions(pkgs["datacodec"])
-	genVint(pkgs["primitive"])
-	genCrcFacts(pkgs["crc"], pkgs["segment"])
-	genDeepCopy(pkgs)
-	genEffects(pkgs)
+	runGen("constants", []string{"Constants.lean", "constants.json"}, func() { genConstants(pkgs["primitive"]) })
+	runGen("accessors", []string{"Accessors.lean"}, func() { genAccessors(pkgs["message"], pkgs["frame"]) })
+	runGen("conversions", []string{"Conversions.lean", "conversions.json"}, func() { genConversions(pkgs["datacodec"]) })
+	runGen("crcfacts", []string{"CrcFacts.lean"}, func() { genCrcFacts(pkgs["crc"], pkgs["segment"]) })
+	runGen("deepcopy", []string{"DeepCopy.lean", "deepcopy.json"}, func() { genDeepCopy(pkgs) })
+	runGen("effects", []string{"Effects.lean", "effects.json"}, func() { genEffects(pkgs) })
+	fj, _ := json.MarshalIndent(failed, "", " ")
+	writeFile("failed.json", string(fj)+"\n")
 	// stale generated files (not produced by this run) are removed
 	old, _ := filepath.Glob(filepath.Join(*outDir, "*"))
 	for _, f := range old {
